@@ -29,6 +29,9 @@ type c26Fn struct {
 type c26Ctx struct {
 	funcs    map[string]c26Fn
 	validFn  bool // isValidSwampName has the expected definition
+	badKeyFn bool // isValidKey exists but is not the expected definition
+	clampsFrom   Tri // swamp.GetTreasuresByBeacon clamps a negative `from`
+	writerRefuses Tri // v2.FileWriter.WriteEntry refuses empty / over-long keys
 	notes    []string
 	respType map[string]int // response message -> number of fields (-1 unknown)
 }
@@ -50,6 +53,7 @@ type c26Env struct {
 	nres      int
 	depth     int
 	top       bool // scanning the handler's own statement list
+	keyVar    string // loop variable ranging over the key-bearing children of the entry (KeyValues, KeySlicePairs, Patches)
 }
 
 func (e *c26Env) clone() *c26Env {
@@ -202,6 +206,14 @@ func (e *c26Env) cond(x ast.Expr) (string, bool) {
 			}
 			if c, ok := v.X.(*ast.CallExpr); ok && e.f.Str(c.Fun) == "isValidSwampName" && len(c.Args) == 1 && e.isNameExpr(c.Args[0]) {
 				return "nameInvalid", true
+			}
+			if c, ok := v.X.(*ast.CallExpr); ok && e.f.Str(c.Fun) == "isValidKey" && len(c.Args) == 1 {
+				if suf, ok := e.entrySuffix(c.Args[0]); ok && (suf == ".Key" || suf == ".GetKey()") {
+					return "keyInvalid", true
+				}
+				if e.keyVar != "" && (e.f.Str(c.Args[0]) == e.keyVar+".GetKey()" || e.f.Str(c.Args[0]) == e.keyVar+".Key") {
+					return "keyInvalid", true
+				}
 			}
 			c, ok := e.cond(v.X)
 			if !ok {
@@ -488,6 +500,21 @@ func (cx *c26Ctx) scan(e *c26Env, stmts []ast.Stmt, p *c26Prog) {
 				p.val = append(p.val, lp.steps...)
 				continue
 			}
+			if suf, ok := e.entrySuffix(v.X); ok && c26KeyChildren[suf] {
+				if id, ok := v.Value.(*ast.Ident); ok && len(v.Body.List) == 1 {
+					if ifs, ok := v.Body.List[0].(*ast.IfStmt); ok {
+						sub := e.clone()
+						sub.boolLoc, sub.capVar, sub.existVar, sub.singleVar = e.boolLoc, e.capVar, e.existVar, e.singleVar
+						sub.top = false
+						sub.keyVar = id.Name
+						lp := &c26Prog{}
+						if cx.scanIf(sub, ifs, lp) && len(lp.steps) == 1 && strings.HasSuffix(lp.steps[0], " keyInvalid") {
+							p.add(lp.steps[0])
+							continue
+						}
+					}
+				}
+			}
 			p.bad("%s:%d range not recognised: %s", f.Path, f.Line(v), f.Str(v.X))
 			return
 		case *ast.AssignStmt:
@@ -733,7 +760,7 @@ func (e *c26Env) condHarmless(x ast.Expr) bool {
 			}
 		case *ast.CallExpr:
 			fn := e.f.Str(v.Fun)
-			if fn != "isValidSwampName" && !c26Harmless.MatchString(fn) {
+			if fn != "isValidSwampName" && fn != "isValidKey" && !c26Harmless.MatchString(fn) {
 				ok = false
 			}
 		}
@@ -982,6 +1009,10 @@ func (h c26Handler) String() string {
 	return h.name + "|" + h.flags + "|" + h.defers + "|" + strings.Join(h.val, ";") + "|" + strings.Join(h.main, ";")
 }
 
+// repeated children of an entry that carry a treasure key
+var c26KeyChildren = map[string]bool{".GetKeyValues()": true, ".KeyValues": true, ".KeySlicePairs": true, ".GetKeySlicePairs()": true,
+	".GetPatches()": true, ".Patches": true}
+
 var c26EntriesRange = regexp.MustCompile(`^(\w+\.Get(Swamps|Requests|Queries|Targets)\(\)|requests|swamps)$`)
 
 func (cx *c26Ctx) handler(fn c26Fn, kind string) c26Handler {
@@ -1063,6 +1094,50 @@ done:
 		}
 	} else {
 		h.main = p.steps
+	}
+	// engine facts: inputs the engine below is known to mishandle must be excluded before it is entered
+	if n := len(h.main); n > 0 && h.main[n-1] == "body" {
+		var needs []string
+		srcAll := f.Str(fd.Body)
+		for name, hf := range cx.funcs {
+			if strings.HasSuffix(name, "OneSwamp") && strings.Contains(srcAll, name+"(") {
+				srcAll += hf.f.Str(hf.fd.Body)
+			}
+		}
+		if strings.Contains(srcAll, "GetTreasuresByBeacon(") && strings.Contains(srcAll, ".GetFrom()") {
+			switch cx.clampsFrom {
+			case No:
+				needs = append(needs, "need fromNeg negfrom")
+			case Unknown:
+				needs = append(needs, "unknown")
+				h.why = append(h.why, "GetTreasuresByBeacon: treatment of a negative from not recognised")
+			}
+		}
+		// (not when the statement that summons checks `IsExistSwamp` itself first, as Get's per-swamp closure does)
+		summonAfterOwnCheck := false
+		ast.Inspect(fd.Body, func(n ast.Node) bool {
+			if fl, ok := n.(*ast.FuncLit); ok {
+				t := f.Str(fl.Body)
+				if i, j := strings.Index(t, ".IsExistSwamp("), strings.Index(t, ".SummonSwamp("); i >= 0 && j > i {
+					summonAfterOwnCheck = true
+				}
+			}
+			return true
+		})
+		if strings.Contains(srcAll, ".SummonSwamp(") && !c26Writes.MatchString(srcAll) && !summonAfterOwnCheck {
+			// SummonSwamp creates the swamp it is asked for: a reader must know that it exists
+			needs = append(needs, "need notExist missingswamp")
+		}
+		if regexp.MustCompile(`\.(CreateTreasure|Increment\w+|PatchFields)\(`).MatchString(srcAll) {
+			switch cx.writerRefuses {
+			case Yes:
+				needs = append(needs, "need keyInvalid badkey")
+			case Unknown:
+				needs = append(needs, "unknown")
+				h.why = append(h.why, "v2 WriteEntry: treatment of empty / over-long keys not recognised")
+			}
+		}
+		h.main = append(append(append([]string{}, h.main[:n-1]...), needs...), "body")
 	}
 	for _, s := range append(append([]string{}, h.val...), h.main...) {
 		if s == "unknown" {
@@ -1288,6 +1363,15 @@ func init() {
 			c26Harmless = regexp.MustCompile(c26Harmless.String())
 		}
 
+		// isValidKey (present after the repair): accept only the exact definition
+		if kf, ok := cx.funcs["isValidKey"]; ok {
+			b := strings.Join(strings.Fields(kf.f.Str(kf.fd.Body)), " ")
+			if b != `{ return key != "" && len(key) <= maxKeyLength }` || !strings.Contains(string(kf.f.Src), "const maxKeyLength = 65535") {
+				fs.Err("isValidKey has an unexpected definition: %s", c26Short(b))
+				cx.badKeyFn = true
+			}
+		}
+
 		// checkSwampName
 		{
 			cn, ok := cx.funcs["checkSwampName"]
@@ -1321,6 +1405,31 @@ func init() {
 			}
 		}
 
+		// engine facts
+		if sf, err := Load("app/core/hydra/swamp/swamp.go"); err == nil {
+			if fd := sf.Func("swamp", "GetTreasuresByBeacon"); fd != nil {
+				cx.clampsFrom = No
+				for _, st := range fd.Body.List {
+					if ifs, ok := st.(*ast.IfStmt); ok && sf.Str(ifs.Cond) == "from < 0" && len(ifs.Body.List) == 1 && sf.Str(ifs.Body.List[0]) == "from = 0" {
+						cx.clampsFrom = Yes
+					}
+				}
+			}
+		}
+		if wf, err := Load("app/core/hydra/swamp/chronicler/v2/writer.go"); err == nil {
+			if fd := wf.Func("FileWriter", "WriteEntry"); fd != nil {
+				txt := wf.Str(fd.Body)
+				if ve := wf.Func("", "validateEntry"); ve != nil && strings.Contains(txt, "validateEntry(") {
+					txt += wf.Str(ve.Body)
+				}
+				if strings.Contains(txt, "ErrEmptyKey") && strings.Contains(txt, "ErrKeyTooLong") {
+					cx.writerRefuses = Yes
+				} else if !strings.Contains(txt, "len(entry.Key)") && !strings.Contains(txt, "validateEntry(") {
+					cx.writerRefuses = No
+				}
+			}
+		}
+
 		// handlers
 		var hs []c26Handler
 		for _, f := range files {
@@ -1337,6 +1446,10 @@ func init() {
 		sort.Slice(hs, func(a, b int) bool { return hs[a].name < hs[b].name })
 		var lean, show []string
 		for _, h := range hs {
+			if cx.badKeyFn && strings.Contains(h.String(), "keyInvalid") {
+				h.flags += "u"
+				h.why = append(h.why, "isValidKey used but its definition was not recognised")
+			}
 			if !cx.validOrAbsent(h.String()) {
 				h.flags += "u"
 				h.why = append(h.why, "isValidSwampName used but its definition was not recognised")
